@@ -149,16 +149,16 @@ pub fn spec_rank<K: KV>(x: &K, from: usize) -> u128 {
     acc
 }
 
-/// A hasher that records exactly what is fed to it (up to 24 bytes) - two values "hash equal" for
+/// A hasher that records exactly what is fed to it (up to 64 bytes) - two values "hash equal" for
 /// every `Hasher` iff they feed the same byte stream.
 pub struct RecHasher {
-    pub buf: [u8; 24],
+    pub buf: [u8; 64],
     pub n: usize,
 }
 
 impl RecHasher {
     pub fn new() -> Self {
-        RecHasher { buf: [0; 24], n: 0 }
+        RecHasher { buf: [0; 64], n: 0 }
     }
 }
 
@@ -169,7 +169,7 @@ impl Hasher for RecHasher {
     fn write(&mut self, bytes: &[u8]) {
         let mut i = 0;
         while i < bytes.len() {
-            if self.n < 24 {
+            if self.n < 64 {
                 self.buf[self.n] = bytes[i];
             }
             self.n += 1;
@@ -401,7 +401,7 @@ pub fn c_hash<K: KV, S: Src>(s: &mut S) {
     let mut hy = RecHasher::new();
     x.hash(&mut hx);
     y.hash(&mut hy);
-    chk!(s, hx.n <= 24, "hash stream recorded completely");
+    chk!(s, hx.n <= 64, "hash stream recorded completely");
     if spec_cmp::<K>(x.bits(), y.bits()) == Ordering::Equal {
         chk!(s, hx.n == hy.n && hx.buf == hy.buf, "equal strings feed the same bytes to any Hasher");
     }
